@@ -39,7 +39,7 @@ PROPS["C02"] = dict(
 
 PROPS["C03"] = dict(
     level="proof",
-    verus=["c02_dispatch", "c03_parse_mask", "c03_apply_options", "c03_option_text", "c05_optimizer"],
+    verus=["c02_dispatch", "c03_parse_mask", "c03_apply_options", "c03_option_text", "c03_check_options", "c05_optimizer"],
     labels=["C03.", "C05.select."] + MASK,
     kani=[KaniSet("src/filters/network_matchers.rs", "c03_options.rs", [
         Harness("c03_options_nodomain", "C03.options.nodomain", "C", "full domain: 2^32 masks x 17 request types x scheme x party; loop-free"),
@@ -51,12 +51,13 @@ PROPS["C03"] = dict(
         ])],
     trusted=["option text -> option AST (unit c03_option_text): the name/alias/polarity/error table of parse_filter_options is proved against a table written from the option syntax; the text splitting around it is lifted and uninterpreted: split(','), trim_start_matches('~'), splitn(2,'='), the '|'-separated domain list closure chain, the VALID_PARAM regex; String/Vec values are their content (string_ext, vec_ext)",
              "the AST -> mask/modifier/tag step and the two bit-mask blocks after it: R7 block lifts, R10 for_each->for and local macro expansion",
-             "seahash of domain names, sort/dedup of the domain list, the OR-fold of the union (lifted, uninterpreted)",
+             "seahash of domain names, sort/dedup of the domain list, the OR-fold of the union (lifted, uninterpreted); check_options assumes what they establish: domain lists sorted, the recorded union covers every listed hash (lists_wf)",
+             "utils::bin_lookup = membership on a sorted slice (binary_search); `xs.iter()` -> `vf_iter(xs)` plumbing with std's any/all semantics (closures verbatim, annotated)",
              "seahash injectivity for domain hashes"],
     assumptions=[],
     level_text="Kani/CBMC proves check_options equal to a reference written from the option semantics for every 32-bit mask, request type, scheme and party "
-               "(loop-free, complete); Verus proves every mask helper against the flag its name denotes; request classification over the alias/scheme tables; domain lists bounded",
-    level_note="domain-list logic is a bounded stand-in; the splitting of the option text is trusted",
+               "(loop-free, complete); Verus proves every mask helper against the flag its name denotes, and check_options as a whole - type, scheme, party and the initiator-domain lists of any length (some source-host hash listed, none excluded) - for every mask and request; request classification over the alias/scheme tables",
+    level_note="the Kani domain-list harness stays as a bounded twin (it replays counterexamples on the real crate); the splitting of the option text is trusted",
     design_ref="DESIGN.md section 4, C03",
 )
 
